@@ -183,10 +183,26 @@ LAW_BY_NAME = {law.name: law for law in LAWS_ALL}
 SECOND = [[], [1], [1, 5], [0, 0, 2], [3, 1, 2, 1], 0, 1, 2, 3, -1, 5]
 
 
-def _mk(xs, lazy):
-    if lazy and isinstance(xs, list):
-        return LazyList(iter([(_mk(x, False) if isinstance(x, list) else x) for x in xs]))
+def _sym(x):
+    import sympy
+
+    if isinstance(x, bool) or not isinstance(x, int):
+        return [_sym(y) for y in x] if isinstance(x, list) else x
+    return sympy.Integer(x)
+
+
+def _mk(xs, mode):
+    """mode: 0 eager list of Python ints, 1 lazy list, 2 / 3 the same with every integer a sympy Integer
+    (what number literals push; Python ints are what inputs and most builtins produce)."""
+    if mode in (2, 3):
+        return _mk(_sym(xs), mode - 2)
+    if mode and isinstance(xs, list):
+        return LazyList(iter([(_mk(x, 0) if isinstance(x, list) else x) for x in xs]))
     return [(list(x) if isinstance(x, list) else x) for x in xs] if isinstance(xs, list) else xs
+
+
+MODES = (0, 1, 2, 3)
+MODE_TAG = {0: "eager", 1: "lazy", 2: "eager, sympy Integers", 3: "lazy, sympy Integers", False: "eager", True: "lazy"}
 
 
 def check(name, args, lazy):
@@ -220,7 +236,7 @@ def check(name, args, lazy):
         exp = law.expect(*[list(a) if isinstance(a, list) else a for a in args])
         want = exp if law.nres == 2 else [exp]
         call = list(args)
-    tag = "lazy" if lazy else "eager"
+    tag = MODE_TAG[lazy]
     try:
         got = run_el(law.op, *[_mk(a, lazy) for a in call])
     except (harness.FuelExhausted, harness.Inconclusive):
@@ -257,7 +273,7 @@ def _nontrivial(xs):
 
 def _do(rec, name, args, lazy, cls):
     r = check(name, args, lazy)
-    rec.case(key=(name, repr(args), lazy), nontrivial=_nontrivial(args[0]), cls=[cls, f"law {name}", "lazy" if lazy else "eager"])
+    rec.case(key=(name, repr(args), lazy), nontrivial=_nontrivial(args[0]), cls=[cls, f"law {name}", MODE_TAG[lazy]])
     if r:
         rec.fail(r[0], {"law": name, "args": args, "lazy": lazy}, r[1])
 
@@ -271,13 +287,13 @@ def _all_laws_on(rec, xs, cls, seconds=SECOND):
                 continue
             if law.name in ("powerset", "sublists") and len(xs) > 8:
                 continue
-            for lazy in (False, True):
+            for lazy in MODES:
                 _do(rec, law.name, [xs], lazy, cls)
         else:
             for s in seconds:
                 if law.name == "cartesian-product" and isinstance(s, list) and len(s) * len(xs) > 40:
                     continue
-                for lazy in (False, True):
+                for lazy in MODES:
                     _do(rec, law.name, [xs, s], lazy, cls)
 
 
@@ -298,7 +314,7 @@ def _shard_exh(rec, arg):
             if j % nshards != shard:
                 continue
             for nm in ("sum-of-rows", "cumulative-sums-of-rows"):
-                for lazy in (False, True):
+                for lazy in MODES:
                     _do(rec, nm, [list(tup)], lazy, "exhaustive-rows")
     if shard == 0:
         rec.sample({"xs": [3, 1, 2, 1], "law": "grade-up", "expected": sorted(range(4), key=lambda i: [3, 1, 2, 1][i])})
@@ -350,7 +366,7 @@ def run(rec, tier, seed):
     ns = campaign.NCPU
     maxlen = 3 if quick else 5
     campaign.parallel(rec, _shard_exh, [(s, ns * 2, maxlen) for s in range(ns * 2)])
-    rec.exhaustive.append(f"all int lists of length<={maxlen} over -2..3, eager and lazy, x {len(LAWS)} laws x {len(SECOND)} second operands")
+    rec.exhaustive.append(f"all int lists of length<={maxlen} over -2..3, eager and lazy, items as Python ints and as sympy Integers, x {len(LAWS)} laws x {len(SECOND)} second operands")
     campaign.parallel(rec, _shard_str, [(s, ns, 4 if quick else 6) for s in range(ns)])
     rec.exhaustive.append(f"all strings of length<={4 if quick else 6} over 'ab c' x {len(STR_LAWS)} string laws")
     n = 60 if quick else 2500
@@ -377,4 +393,4 @@ def replay(case):
         return None
     if need == 2 and not (isinstance(args[1], int) or (isinstance(args[1], list) and all(isinstance(x, int) for x in args[1]))):
         return None
-    return check(name, args, bool(case.get("lazy")))
+    return check(name, args, int(case.get("lazy") or 0) if case.get("lazy") in (0, 1, 2, 3, True, False, None) else 0)
